@@ -409,7 +409,7 @@ func (fx *fexec) appendOp(x *ssa.Call, args []Val, st *State) Val {
 	newRef := st.alloc
 	st.alloc = vc.define("alloc", add(st.alloc, intLit(1)))
 	newCap := vc.fresh("appcap", SInt)
-	vc.assert(and(ge(newCap, newLen), le(newCap, bigLit(pow2(61)))))
+	vc.assert(and(ge(newCap, newLen), le(newCap, bigLit(pow2(48)))))
 	// appending nothing to a nil slice yields nil
 	emptyNil := and(eq(sArr(s.T), intLit(0)), eq(n, intLit(0)))
 	res := ite(inPlace, mkSlice(sArr(s.T), sOff(s.T), newLen, sCap(s.T)),
@@ -491,6 +491,10 @@ func (fx *fexec) makeInterface(x *ssa.MakeInterface, st *State) Val {
 	box, unbox := vc.boxFns(v.Ty)
 	b := vc.define(x.Name(), app(SInt, box, v.T))
 	vc.assert(and(gt(b, intLit(0)), eq(app(SInt, "typetag", b), vc.typeTag(v.Ty)), eq(app(v.T.Sort, unbox, b), v.T)))
+	if vc.boxed == nil {
+		vc.boxed = map[string]Val{}
+	}
+	vc.boxed[b.S] = v // lets extern models (amino.Unmarshal(bz, &x)) see through the interface
 	return Val{Ty: vc.resolve(x.Type()), T: b}
 }
 
